@@ -1015,7 +1015,8 @@ class ComparisonReporter:
             return x
 
         def _safe_divide(n, d):
-            return n / d if d else 0
+            # relative to the magnitude of the baseline so that the sign is the one of the difference also for negative baselines
+            return n / abs(d) if d else 0
 
         if self.plain:
             color_greater = identity
